@@ -172,6 +172,11 @@ def default_rng_factory(seed=None):
         return _REAL_DEFAULT_RNG(seed)
     if seed is not None:
         return RecordingGenerator(seed_seq=seed)
+    if c.namespace is not None:
+        label, group = c.namespace
+        i = c.ns_count.get(label, 0)
+        c.ns_count[label] = i + 1
+        return RecordingGenerator(seed_seq=c.child_seed(2, int(group), i), name="%s.g%d" % (label, i))
     k = c.n_gen
     return RecordingGenerator(seed_seq=c.child_seed(1, k))
 
